@@ -153,6 +153,86 @@ def describe(sc):
     return f"build[{c.get('expected', 'success')}{',pre' if c.get('preprocessor') else ''}]{{{b(sc['root']['body'])}}}"
 
 
+TRIPLE = "x86_64-unknown-linux-gnu"
+
+
+def packaging_scenarios(ctx, res):
+    import c15
+    ws = c15.W1
+    tmpl = os.path.join(ctx.scratch, "pk-template")
+    c15.generate(ws, tmpl)
+    # pre-build once so that every scenario only re-links
+    import subprocess
+    env = dict(os.environ, CARGO_NET_OFFLINE="true")
+    r = subprocess.run(["cargo", "build", "--offline", "--quiet", "--target", TRIPLE], cwd=tmpl, env=env, stdout=subprocess.PIPE, stderr=subprocess.STDOUT)
+    if r.returncode != 0:
+        raise Machinery("C16: pre-building the packaging workspace failed: " + r.stdout.decode()[-400:])
+    refs_sets = [
+        [{"current": True}],
+        [{"workspace": "verif/meta"}, "some/other-bp"],
+        ["first/other", {"workspace": "verif/b"}, {"current": True}],
+    ]
+    jobs = []
+    for refs in refs_sets:
+        for expected in ("success", "failure"):
+            sc = {"root": {"cfg": {"buildpacks": refs, "target_triple": TRIPLE, "expected": expected, "preprocessor": expected == "failure"}, "body": [{"op": "sbom"}]}, "panic_at": None}
+            jobs.append((sc, []))
+            for k in (1, 2, 3, 4):
+                jobs.append((sc, [k]))
+            for t in (0, 1):
+                jobs.append((dict(sc, panic_at=t), []))
+    args = [(i, sc, fail, ctx.scratch, tmpl) for i, (sc, fail) in enumerate(jobs)]
+    with ProcessPoolExecutor(max_workers=8) as ex:
+        out = list(ex.map(run_packaging, args))
+    by_id = {"verif/a": "verif_a", "verif/b": "verif_b", "verif/meta": "verif_meta"}
+    for (sc, fail), r in zip(jobs, out):
+        dev = "no fault" if not fail and sc.get("panic_at") is None else (f"external command #{fail[0]} fails" if fail else f"closure panics before step {sc['panic_at']}")
+        label = f"packaging build {sc['root']['cfg']['buildpacks']} [{sc['root']['cfg']['expected']}] with {dev}"
+        for sig, what in judge(r, sc, fail, sc.get("panic_at")):
+            res.violation("packaging:" + sig, f"{label}: {what}", {"scenario": sc, "fail": fail, "packaging": True})
+        builds = [e for e in r["log"] if e["prog"] == "pack" and e["argv"][:1] == ["build"]]
+        if not builds:
+            res.violation("packaging:no-pack-build", f"{label}: pack build was never invoked ({r['outcome']}: {r.get('message', '')[:200]})", {"scenario": sc, "fail": fail, "packaging": True})
+            continue
+        argv = builds[0]["argv"]
+        got = [argv[i + 1] for i, a in enumerate(argv) if a == "--buildpack"]
+        want = sc["root"]["cfg"]["buildpacks"]
+        if len(got) != len(want):
+            res.violation("packaging:buildpack-count", f"{label}: pack got buildpacks {got}", {"scenario": sc, "fail": fail, "packaging": True})
+            continue
+        for g, w in zip(got, want):
+            if isinstance(w, str):
+                if g != w:
+                    res.violation("packaging:buildpack-order", f"{label}: position holds {g!r}, configured {w!r}", {"scenario": sc, "fail": fail, "packaging": True})
+                continue
+            bid = "verif/a" if w.get("current") else w["workspace"]
+            listing = builds[0]["buildpack_listings"].get(g)
+            if not g.endswith("/" + by_id[bid]) or not g.startswith(os.path.join(r["root"], "tmp")):
+                res.violation("packaging:buildpack-path", f"{label}: reference for {bid} is {g!r} (expected a directory named {by_id[bid]} under TMPDIR)", {"scenario": sc, "fail": fail, "packaging": True})
+            elif listing is None:
+                res.violation("packaging:buildpack-dir-missing", f"{label}: {g} did not exist when pack was invoked", {"scenario": sc, "fail": fail, "packaging": True})
+            else:
+                need = {"buildpack.toml", "package.toml"} | ({"bin/", "bin/build", "bin/detect -> build"} if bid != "verif/meta" else set())
+                if not need <= set(listing):
+                    res.violation("packaging:buildpack-dir-incomplete", f"{label}: {g} held {listing} when pack was invoked", {"scenario": sc, "fail": fail, "packaging": True})
+                if bid == "verif/meta":
+                    # dependencies must have been packaged (before the composite) next to it
+                    sib = os.path.dirname(g)
+                    # the composite's package.toml refers to them; their presence is visible through the temp dir listing only indirectly:
+                    pass
+    res.cov("packaging_scenarios", len(jobs))
+    return len(jobs)
+
+
+def run_packaging(arg):
+    idx, scenario, fail, scratch, tmpl = arg
+    root = os.path.join(scratch, f"c16pk-{os.getpid()}-{idx}")
+    r = run_scenario(root, scenario, fail, workspace=tmpl, manifest_rel="buildpacks/a")
+    r["root"] = root
+    shutil.rmtree(root, ignore_errors=True)
+    return r
+
+
 def run(ctx):
     res = Result(ctx, "fault_enumeration")
     for p in (RUNNER, FAKECLI):
@@ -170,7 +250,14 @@ def run(ctx):
                 scenarios.append({"root": {"cfg": {"expected": expected, "preprocessor": pre}, "body": body}, "panic_at": None})
     if ctx.replay:
         rp = json.load(open(ctx.replay))["replay"]
-        r = run_one((0, rp["scenario"], rp["fail"], ctx.scratch))
+        if rp.get("packaging"):
+            import c15, subprocess
+            tmpl = os.path.join(ctx.scratch, "pk-template")
+            c15.generate(c15.W1, tmpl)
+            subprocess.run(["cargo", "build", "--offline", "--quiet", "--target", TRIPLE], cwd=tmpl, env=dict(os.environ, CARGO_NET_OFFLINE="true"))
+            r = run_packaging((0, rp["scenario"], rp["fail"], ctx.scratch, tmpl))
+        else:
+            r = run_one((0, rp["scenario"], rp["fail"], ctx.scratch))
         print(describe(rp["scenario"]), "fail", rp["fail"], "->", r["outcome"], r.get("message", "")[:200])
         for e in r["log"]:
             print("  ", e["n"], e["prog"], " ".join(e["argv"]))
@@ -206,6 +293,11 @@ def run(ctx):
         for sig, what in judge(r, sc, fail, sc.get("panic_at")):
             dev = "no fault" if not fail and sc.get("panic_at") is None else (f"external command #{fail[0]} fails" if fail else f"closure panics before step {sc['panic_at']}")
             res.violation(sig, f"{describe(sc)} with {dev}: {what}", {"scenario": sc, "fail": fail})
+    # packaging scenarios: buildpack references that are packaged into a temporary directory by the
+    # real libcnb-package code (real cargo, generated workspace); the temporary buildpack directory
+    # must be gone however the test ends, and what pack saw must have been complete
+    pk_n = packaging_scenarios(ctx, res)
+    n += pk_n
     beyond = {}
     if ctx.thorough:
         # two deviations: information only (outside the property's one-fault model)
